@@ -137,6 +137,18 @@ func main() {
 		writeEvidence(id, *tierS, seed, chk, total, t0, nil, 0)
 		os.Exit(0)
 	}
+	// known findings of this property do not cut the exploration below them
+	{
+		kf := map[string]bool{}
+		for _, k := range loadKnown() {
+			if k.Status == "known" && k.Property == id {
+				kf[k.Signature] = true
+			}
+		}
+		if len(kf) > 0 {
+			engine.Tolerate = func(kind, opKind string) bool { return kf[id+"|"+kind+"|"+opKind] }
+		}
+	}
 	var specialErr error
 	if *shardS != "" {
 		// child: explore one shard, print a JSON report, exit
